@@ -13,6 +13,7 @@ from ..vloop import run_virtual
 from . import _mem
 
 S = redisrun.S
+DAY = 86400 * S
 
 
 def gen_seq(rng, *, focus: str) -> dict:
@@ -23,7 +24,15 @@ def gen_seq(rng, *, focus: str) -> dict:
     ops, nid = [], 1
     n_ops = rng.randint(5, 30)
     prios = [5] if focus == "fifo" or rng.random() < 0.5 else [0, 5, 5, 9]
+    fifo_c = 1
     if focus == "fifo":
+        if rng.random() < 0.4:
+            # a block of messages of a topic the filtered consumer does not serve, as long as one or two fetch windows, at
+            # the old end of the list - then the consumer with the filter does the taking
+            fifo_c = 2
+            for _ in range(rng.choice([9, 10, 11, 12, 19, 20, 21, 25])):
+                ops.append({"op": "put", "id": nid, "queue": 1, "topic": 3, "prio": 5, "params": {}})
+                nid += 1
         for _ in range(rng.randint(2, 26)):
             ops.append({"op": "put", "id": nid, "queue": 1, "topic": rng.choice([1, 1, 2, 3]), "prio": 5, "params": {}})
             nid += 1
@@ -37,12 +46,15 @@ def gen_seq(rng, *, focus: str) -> dict:
             if focus in ("ttl", "any") and rng.random() < 0.5:
                 sp["ttl"] = rng.choice([100_000, 150_000, S, 10 * S])
                 sp["ts"] = -rng.choice([0, 50_000, 100_000])
+            if focus == "death":
+                # execution timeouts below and above a day, with and without a fraction of a second
+                sp["timeout"] = rng.choice([600 * S, 600 * S, 90 * S + 500_000, DAY, DAY + 30 * S, 2 * DAY + S, 25 * 3600 * S])
             ops.append({"op": "put", "id": nid, "queue": rng.choice(queues), "topic": rng.choice([1, 1, 2, 3]),
                         "prio": rng.choice(prios), "params": sp})
             nid += 1
         elif r < 0.66:
             cs = [c for c in consumers]
-            c = rng.choice([1, 1, 2] + cs) if focus != "fifo" else 1
+            c = rng.choice([1, 1, 2] + cs) if focus != "fifo" else fifo_c
             ops.append({"op": "take", "c": c, "choice": rng.choice([0, 1, 1, 2])})
         elif r < 0.86:
             ops.append({"op": "terminal"})
@@ -50,7 +62,8 @@ def gen_seq(rng, *, focus: str) -> dict:
             ops.append({"op": "maintenance"})
         else:
             ops.append({"op": "tick", "d": rng.choice([1, 50_000, 100_000, 150_000, 400_000, 999_999, S, 2_500_000] +
-                                                      ([599 * S, 600 * S, 601 * S, 30 * S] if focus == "death" else []))})
+                                                      ([599 * S, 600 * S, 601 * S, 30 * S, 90 * S, 91 * S, 3600 * S, DAY - 600 * S, DAY - S, DAY + 31 * S, DAY]
+                                                       if focus == "death" else []))})
     kinds = {"fifo": ["ack", "ack", "reject", "reject", "nack"], "ttl": ["ack", "nack", "reject", "requeue"],
              "death": ["ack", "requeue"]}.get(focus)
     if focus == "death":
@@ -165,9 +178,12 @@ def oracle_death(hist: dict, r: dict) -> list:
     maintenance runs after its execution timeout (600 s here) has elapsed, and is deliverable again right after that."""
     bad = []
     taken_at: dict = {}
+    timeout: dict = {}
     for n, e in enumerate(r["trace"]):
         places = e["after"]["places"]
         where = {"step": n, "op": {k: v for k, v in e.items() if k not in ("after", "params", "got")}}
+        if e["op"] in ("put", "requeue"):
+            timeout[e["id"]] = ct.us_of_td(e["params"].execution_timeout)
         if e["op"] == "take" and e["delivered"] is not None:
             taken_at[e["delivered"]] = e["t_return"]
         elif e["op"] in ("ack", "nack", "reject", "requeue"):
@@ -177,13 +193,14 @@ def oracle_death(hist: dict, r: dict) -> list:
                 pl = [p[0] for p in places.get(i, [])]
                 # the processing mark carries whole seconds: decided on the second the take was stamped with
                 elapsed_hi = e["t"] - (t0 // S) * S
-                if elapsed_hi <= 600 * S - S and pl != ["processing"]:
+                to = timeout.get(i, 600 * S)
+                if elapsed_hi <= to - S and pl != ["processing"]:
                     bad.append(("redis_recovered_before_timeout", f"message {i} taken at {t0} was given back by maintenance at {e['t']} "
-                                f"({elapsed_hi / 1e6:.1f} s), before its 600 s execution timeout", where))
-                if elapsed_hi > 600 * S + S:
+                                f"({elapsed_hi / 1e6:.1f} s), before its {to / 1e6:.1f} s execution timeout", where))
+                if elapsed_hi > to + S:
                     if pl == ["processing"]:
                         bad.append(("redis_not_recovered_after_timeout", f"message {i} taken at {t0} is still marked as processed after "
-                                    f"maintenance at {e['t']} ({elapsed_hi / 1e6:.1f} s > 600 s)", where))
+                                    f"maintenance at {e['t']} ({elapsed_hi / 1e6:.1f} s > {to / 1e6:.1f} s)", where))
                     else:
                         taken_at.pop(i)
         for i in taken_at:
@@ -195,13 +212,25 @@ def oracle_death(hist: dict, r: dict) -> list:
 def run_seq(ctx: Ctx, res: Result, tag: str, which: set, focus: str, n_quick: int, n_thorough: int, rng) -> None:
     hists = [gen_seq(rng, focus=focus) for _ in range(ctx.scale(n_quick, n_thorough))]
     outs = []
-
-    async def main(loop):
-        loop.set_exception_handler(lambda l, c: None)
-        for h in hists:
-            outs.append(await redisrun.run_sequential(h, loop, rng))
-
-    run_virtual(main)
+    ran = []
+    for h in hists:
+        async def main(loop, h=h):
+            loop.set_exception_handler(lambda l, c: None)
+            return await redisrun.run_sequential(h, loop, rng)
+        try:
+            out, _ = run_virtual(main, max_iterations=400_000)
+        except Exception as ex:  # noqa: BLE001
+            # a call that never returns (busy loop: the virtual loop's budget runs out) or that raises, or a command
+            # outside the modelled subset: the history is the failing input
+            kind = "redis_call_never_returns" if type(ex).__name__ == "VirtualDeadlock" else "redis_client_error"
+            res.failures.append(Failure(kind, f"{type(ex).__name__}: {ex}"[:300],
+                                        {"redis_history": {"queues": h["queues"], "consumers": {str(k): v for k, v in h["consumers"].items()},
+                                                           "ops": h["ops"], "terminal_kinds": h.get("terminal_kinds")}}, None))
+            res.count("redis_histories_that_failed_to_run")
+            continue
+        outs.append(out)
+        ran.append(h)
+    hists = ran
     cases = []
     for h, r in zip(hists, outs):
         took = sum(1 for e in r["trace"] if e["op"] == "take" and e["delivered"] is not None)
